@@ -14,7 +14,7 @@ if [ ! -f "$W/.baseline.results" ]; then
 fi
 rundemo() {  # build+run the demo against the worktree's current source; echo exit code
   ( cd "$C" && sed "s#/tmp/[A-Za-z0-9_-]*-[a-z]\b#$W#g; s#/tmp/mut-[A-Za-z0-9_-]*#$W#g" build.sh > .build.sh && sh .build.sh >/dev/null 2>&1 )
-  if [ -x "$C/demo" ]; then ( cd "$C" && timeout 120 ./demo >/dev/null 2>&1; echo $? ); elif [ -f "$C/demo.sh" ]; then ( cd "$C" && timeout 300 sh demo.sh "$W" >/dev/null 2>&1; echo $? ); else echo nodemo; fi
+  if [ -x "$C/demo" ]; then ( cd "$C" && timeout 120 ./demo >/dev/null 2>&1; echo $? ); elif [ -f "$C/demo.sh" ]; then ( cd "$C" && timeout 300 bash demo.sh "$W" >/dev/null 2>&1; echo $? ); else echo nodemo; fi
 }
 D0=$(rundemo)
 git apply "$C/patch.diff" || { echo "VERDICT $C: patch does not apply"; exit 1; }
